@@ -24,6 +24,8 @@ const preamble = `(declare-sort Str 0)
 (declare-fun s.lt (Str Str) Bool)
 (declare-fun s.fromrune (Int) Str)
 (declare-fun s.empty () Str)
+(declare-fun s.chr (Int) Str)
+(assert (forall ((c Int)) (! (and (= (s.len (s.chr c)) 1) (=> (and (<= 0 c) (<= c 255)) (= (s.at (s.chr c) 0) c))) :pattern ((s.chr c)))))
 (assert (= (s.len s.empty) 0))
 (assert (forall ((s Str)) (! (>= (s.len s) 0) :pattern ((s.len s)))))
 (assert (forall ((s Str)) (! (=> (= (s.len s) 0) (= s s.empty)) :pattern ((s.len s)))))
@@ -606,6 +608,9 @@ func (e *Enc) frameItems(ctx *SpecCtx, m Expr) (items []frameItem) {
 	switch x := m.(type) {
 	case *ESel:
 		base := ctx.eval(x.X)
+		if gl, ok := ctx.ghostFieldLoc(base, x.F); ok {
+			return e.locFrameItems(gl)
+		}
 		pt, ok := base.T.Underlying().(*types.Pointer)
 		if !ok {
 			ctx.fail("modifies: %s is not a pointer", x.X)
